@@ -14,11 +14,49 @@ use super::ast::{Cmd, OpKind, Task};
 // ------------------------------------------------------------------------------------------------
 // operations
 
+/// Every operation value carries a drop-counted marker (not on the wire): whatever still holds an
+/// operation when the host and the shell are gone has leaked what a request captured.
+pub static LIVE_OPS: AtomicI64 = AtomicI64::new(0);
+
+pub struct OpToken;
+impl Default for OpToken {
+    fn default() -> Self {
+        LIVE_OPS.fetch_add(1, Ordering::SeqCst);
+        OpToken
+    }
+}
+impl Clone for OpToken {
+    fn clone(&self) -> Self {
+        OpToken::default()
+    }
+}
+impl Drop for OpToken {
+    fn drop(&mut self) {
+        LIVE_OPS.fetch_sub(1, Ordering::SeqCst);
+    }
+}
+impl PartialEq for OpToken {
+    fn eq(&self, _: &Self) -> bool {
+        true
+    }
+}
+impl Eq for OpToken {}
+impl std::fmt::Debug for OpToken {
+    fn fmt(&self, f: &mut std::fmt::Formatter<'_>) -> std::fmt::Result {
+        f.write_str("_")
+    }
+}
+pub fn live_ops() -> i64 {
+    LIVE_OPS.load(Ordering::SeqCst)
+}
+
 #[derive(Clone, Debug, PartialEq, Eq, Serialize, Deserialize)]
 pub struct OpA {
     pub site: u32,
     pub arg: u64,
     pub trace: Vec<u8>,
+    #[serde(skip)]
+    pub tok: OpToken,
 }
 impl Operation for OpA {
     type Output = u64;
@@ -30,6 +68,8 @@ pub struct OpB {
     pub arg: u64,
     pub trace: Vec<u8>,
     pub blob: String,
+    #[serde(skip)]
+    pub tok: OpToken,
 }
 #[derive(Clone, Debug, PartialEq, Eq, Serialize, Deserialize)]
 pub struct OutB {
